@@ -37,10 +37,10 @@ ExtraStrs ==
            \cup {<<b1, b2, b3>> : b1 \in {226, 239}, b2 \in {128, 130, 189}, b3 \in 128..191}
       [] OTHER -> {}
 
-GridOf(M, neg, hi) == {Tok([m |-> m, e |-> e]) : m \in (-M)..M, e \in (-neg)..hi} \cup {Inf(1), Inf(-1)}
+GridOf(M, neg, hi) == {Tok([m |-> m, e |-> e]) : m \in (-M)..M, e \in (-neg)..hi} \cup {Inf(1), Inf(-1), NegZero}
 Grid1 == GridOf(G1M, G1Neg, G1Hi)
 Grid2 == GridOf(G2M, G2Neg, G2Hi)
-SmallGrid == {Tok([m |-> m, e |-> e]) : m \in {-3, -1, 0, 1, 2, 5}, e \in {-1, 0}} \cup {Inf(1), Inf(-1)}
+SmallGrid == {Tok([m |-> m, e |-> e]) : m \in {-3, -1, 0, 1, 2, 5}, e \in {-1, 0}} \cup {Inf(1), Inf(-1), NegZero}
 TinyGrid == {I(-1), I(0), <<"q", 1, -1>>, I(2)}
 
 (* format building blocks *)
@@ -86,6 +86,15 @@ WideVals == {t \in {Tok([m |-> m, e |-> e]) : m \in WideMants, e \in WideExps}
 WideShifts == {0, 1, 52, 53, 1020, 1022, 1023, 1024, 1025, 1050, 1073, 1074, 1075, 1076, 1100, 1500, 2000, 2046,
                2097, 2098, 2099, 2200}
 
+(* pow: the special cases of C99 F.9.4.4, for math.pow and the ^ operator *)
+PowBases == {PosZero, NegZero, Inf(1), Inf(-1), I(1), I(-1), NaN, I(-2), I(2), I(-3), <<"q", -1, -1>>, <<"q", 1, -1>>,
+             <<"q", -5, -1>>, I(4), <<"q", 9, -2>>}
+PowExps == {PosZero, NegZero, <<"q", 1, -1>>, <<"q", -1, -1>>, I(1), I(-1), I(2), I(-2), I(3), I(-3), I(4), I(5),
+            Inf(1), Inf(-1), NaN, <<"q", 3, -1>>, <<"q", 1, -2>>, <<"q", -5, -1>>, <<"q", 1, 40>>, <<"q", -1, 40>>}
+(* arithmetic with signed zeros, infinities and NaN *)
+ArithVals == {PosZero, NegZero, I(1), I(-1), I(2), I(-2), I(3), I(-6), <<"q", 1, -1>>, <<"q", -1, -1>>, <<"q", 3, -2>>,
+              Inf(1), Inf(-1), NaN}
+
 GroupsOf(Fam) ==
     CASE Fam \in {"sub", "byte"} -> Strs(AlphaIdx, LenIdx)
       [] Fam = "unary" -> Strs(AlphaIdx, LenIdx) \cup ExtraStrs
@@ -102,6 +111,9 @@ GroupsOf(Fam) ==
       [] Fam = "maxmin" -> SmallGrid \X SmallGrid
       [] Fam = "fmtgrid" -> UNION {{<<c, a>> : a \in GArgsOf(c)} : c \in GridConvs}
       [] Fam = "ldexpw" -> WideVals
+      [] Fam = "powsp" -> PowBases
+      [] Fam = "arith" -> ArithVals
+      [] Fam = "consts" -> {"huge", "pi"}
 
 
 Call(f, args) == <<f, args>>
@@ -145,10 +157,17 @@ CasesOf(Fam, g) ==
            \cup {Call("ldexp", <<g, I(k)>>) : k \in -5..5}
            \cup {Call("max", <<g>>), Call("min", <<g>>)}
       [] Fam = "math2" ->
-           {Call(f, <<g[1], g[2]>>) : f \in {"fmod", "pow", "max", "min"}}
+           {Call(f, <<g[1], g[2]>>) : f \in {"fmod", "mod", "pow", "max", "min"}}
       [] Fam = "fmtgrid" ->
            {Call("format", <<S(Directive(fl, wd, pd, g[1])), g[2]>>) :
                 fl \in SUBSET GFlagsOf(g[1]), wd \in GWidthsOf(g[1]), pd \in GPrecsOf(g[1])}
+      [] Fam = "powsp" -> {Call(f, <<g, y>>) : f \in {"pow", "op^"}, y \in PowExps}
+      [] Fam = "arith" ->
+           {Call(f, <<g, y>>) : f \in {"op+", "op-", "op*", "op/", "op%", "fmod", "mod", "max", "min"}, y \in ArithVals}
+           \cup {Call("opneg", <<g>>)}
+           \cup {Call(f, <<g>>) : f \in {"floor", "ceil", "abs", "modf", "sqrt"}}
+           \cup (IF IsFinite(g) THEN {Call("frexp", <<g>>), Call("ldexp", <<g, I(3)>>), Call("ldexp", <<g, I(-2000)>>)} ELSE {})
+      [] Fam = "consts" -> {Call(g, <<>>)}
       [] Fam = "ldexpw" ->
            {Call("ldexp", <<g, I(k)>>) : k \in WideShifts} \cup {Call("ldexp", <<g, I(-k)>>) : k \in WideShifts}
            \cup {Call("frexp", <<g>>)}
